@@ -23,6 +23,7 @@ run ba78ae7 C16
 run aecaa2c C08
 run 17a059e C08
 run 9604a2d C04
+run 0d7cc73 C11
 # F7 (1daf074) cannot be reverted textually any more (later commits touch the same lines): the same defect is re-introduced by hand
 cat > /tmp/m_time_seed.diff <<'EOP'
 --- a/src/util/util.cpp
